@@ -41,12 +41,19 @@ func EndBlocker(ctx sdk.Context, k keeper.Keeper) {
 			k.CompleteServiceContext(ctx, requestContext, requestContextID)
 		}
 
+		hasNextBatch := requestContext.Repeated && (requestContext.RepeatedTotal < 0 || int64(requestContext.BatchCounter) < requestContext.RepeatedTotal)
+
 		if requestContext.State == types.RUNNING {
-			if requestContext.Repeated && (requestContext.RepeatedTotal < 0 || int64(requestContext.BatchCounter) < requestContext.RepeatedTotal) {
+			if hasNextBatch {
 				k.AddNewRequestBatch(ctx, requestContextID, ctx.BlockHeight()-requestContext.Timeout+int64(requestContext.RepeatedFrequency))
 			} else {
 				k.CompleteServiceContext(ctx, requestContext, requestContextID)
 			}
+		}
+
+		// a paused context with no batch left is finished as well
+		if requestContext.State == types.PAUSED && !hasNextBatch {
+			k.CompleteServiceContext(ctx, requestContext, requestContextID)
 		}
 
 		k.CleanBatch(ctx, requestContext, requestContextID)
